@@ -908,3 +908,60 @@ func callsWithNewHelpersFuncs(c *km.Ctx, fn *ssa.Function, depth int) []*ssa.Fun
 	rec(fn, depth)
 	return out
 }
+
+// localSliceElems: v is an element read from a slice that is built in the same function by appending single
+// elements to an empty slice; returns the appended elements (known=false when the slice has any other origin).
+func localSliceElems(v ssa.Value) (elems []ssa.Value, known bool) {
+	u, ok := km.Unwrap(v).(*ssa.UnOp)
+	if !ok || u.Op != token.MUL {
+		return nil, false
+	}
+	ia, ok := u.X.(*ssa.IndexAddr)
+	if !ok {
+		return nil, false
+	}
+	seen := map[ssa.Value]bool{}
+	known = true
+	var walk func(s ssa.Value, d int)
+	walk = func(s ssa.Value, d int) {
+		s = km.Unwrap(s)
+		if seen[s] || !known {
+			return
+		}
+		seen[s] = true
+		if d > 10 {
+			known = false
+			return
+		}
+		switch x := s.(type) {
+		case *ssa.Phi:
+			for _, e := range x.Edges {
+				walk(e, d+1)
+			}
+		case *ssa.MakeSlice:
+		case *ssa.Const:
+			if !km.IsNilConst(x) {
+				known = false
+			}
+		case *ssa.Slice:
+			walk(x.X, d+1)
+		case *ssa.Call:
+			b, isB := x.Common().Value.(*ssa.Builtin)
+			if !isB || b.Name() != "append" {
+				known = false
+				return
+			}
+			e := appendedSingle(x)
+			if e == nil {
+				known = false
+				return
+			}
+			elems = append(elems, e)
+			walk(x.Common().Args[0], d+1)
+		default:
+			known = false
+		}
+	}
+	walk(ia.X, 0)
+	return elems, known
+}
